@@ -237,6 +237,12 @@ func loadFindings() []finding {
 }
 
 func main() {
+	// go/packages and go build must find go1.26.8 as "go" (the default go is too old for /repo's go.mod)
+	os.Setenv("PATH", "/opt/veriftools/go1.26.8/bin:"+os.Getenv("PATH"))
+	os.Setenv("GOFLAGS", "-mod=mod")
+	os.Setenv("GOPROXY", "off")
+	os.Setenv("GOSUMDB", "off")
+	os.Setenv("GOTOOLCHAIN", "local")
 	if len(os.Args) < 2 {
 		fmt.Println("usage: vcheck setup | vcheck <Cxx> [--tier quick|thorough] [--replay file]")
 		os.Exit(2)
